@@ -85,19 +85,35 @@ def expected_opener(s, flags):
     live = [i for i in s.player_indices if s.statuses[i]]
     if opening == 'POSITION':
         if s.street_index == 0 and any(b > 0 for b in s.blinds_or_straddles):
-            for i in s.player_indices:
-                nominal = s.blinds_or_straddles[(not i) if n == 2 else i]
-                if nominal > 0 and s.bets[i] < nominal:
-                    # a blind or straddle posted short (all-in for less, or
-                    # short after a returned ante): the engine orders forced
-                    # bets by size, the rule books by position; the statement
-                    # does not settle which short post still "counts", so
-                    # the first-round opener is not judged here
-                    flags.add('not_judged_partial_blind_with_chips')
-                    return None, 'skip'
+            nominal = [s.blinds_or_straddles[(not i) if n == 2 else i]
+                       for i in s.player_indices]
+            short = [i for i in s.player_indices
+                     if nominal[i] > 0 and s.bets[i] < nominal[i]]
+            posted = [i for i in s.player_indices
+                      if nominal[i] > 0 and s.bets[i] > 0]
+            if n == 2:
+                agree = s.bets[0] > s.bets[1]
+            else:
+                by_size = max(posted, key=lambda i: (s.bets[i], i),
+                              default=None)
+                agree = by_size == max(i for i in s.player_indices
+                                       if nominal[i] > 0)
+            if short and posted and not agree:
+                # a blind or straddle posted short (all-in for less, or
+                # short after a returned ante) beside others that were
+                # posted: the engine orders forced bets by size, the rule
+                # books by position; the statement does not settle which
+                # short post still "counts", so the first-round opener is
+                # not judged when the two orders disagree about the last
+                # forced bet.  When no blind chip at all reached the
+                # table (every blind seat lost his stack to the ante) only
+                # the positions are left to decide, and they are judged
+                flags.add('not_judged_partial_blind_with_chips')
+                return None, 'skip'
+            if short:
+                flags.add('blinds_swallowed_by_antes')
             if n == 2 and (s.blinds_or_straddles[0]
-                           == s.blinds_or_straddles[1]
-                           or not all(s.blinds_or_straddles)):
+                           == s.blinds_or_straddles[1]):
                 # heads-up with two equal blinds: there is no small blind;
                 # the statement does not say who opens - not judged
                 flags.add('not_judged_equal_blinds_heads_up')
